@@ -117,6 +117,6 @@ def main():
         checks=checks, not_applicable=na,
         notes="Driver: /verif/verif.py (lib/vbuild.py builds /repo's working tree by content hash; lib/checks.py holds the checks). Known findings: /verif/known_findings.json. Seeded changes: /verif/seeded/.")
     json.dump(m, open(os.path.join(V, "MANIFEST.json"), "w"), indent=1)
-HOOK_COMMITS = ['3035dc2', '324d75e']
+HOOK_COMMITS = ['036c817', '13c86c7']
 if __name__ == "__main__":
     main()
